@@ -130,6 +130,8 @@ def pr(cmds,sep=" "):
         elif k=='o': out.append("o%d"%c[1])
         elif k=='orel': out.append(">" if c[1]>0 else "<")
         elif k=='vrel': out.append(")" if c[1]>0 else "(")
+        elif k=='tsync': out.append("TrackSync")
+        elif k=='play': out.append("PLAY(%s)" % ",".join("{%s}" % pr(p) for p in c[1]))
         elif k=='voice': out.append("@%d;"%c[1])
         elif k=='v': out.append("v%d"%c[1])
         elif k=='q': out.append("q%d"%c[1])
@@ -240,6 +242,8 @@ def sexp(cmds):
         elif k == 'rest': out.append("(rest %s %d)" % (_len_sexp(c[1]), c[2]))
         elif k == 'l': out.append("(l %s)" % _len_sexp(c[1]))
         elif k in ('o', 'orel', 'v', 'vrel', 'q', 't', 'tr', 'ch', 'voice', 'kshift', 'tkey'): out.append("(%s %d)" % (k, c[1]))
+        elif k == 'tsync': out.append("(tsync)")
+        elif k == 'play': out.append("(play (%s))" % " ".join(sexp(p) for p in c[1]))
         elif k == 'loop': out.append("(loop %d %s %d %s _)" % (c[1], sexp(c[2]), 0 if c[3] is None else 1, sexp(c[3] or [])))
         elif k == 'sub': out.append("(sub %s)" % sexp(c[1]))
         elif k == 'div': out.append("(div %s %s)" % (sexp(c[1]), _len_sexp(c[2])))
